@@ -198,6 +198,9 @@ def xref_stream_defaults(ctx, F, R="R-TABLE"):
             p = op_place(t["d"])
             if p is None or p["p"]:
                 continue
+            dd_ = bb.single_def(p["l"])
+            if dd_ is not None and dd_[2] == "rv" and dd_[3]["k"] == "discr":
+                continue      # a dispatch on an enum value: the number it was made from is what the other dispatch (its conversion) reads
             consts, others = [], 0
             seen, work = set(), [p["l"]]
             while work:
@@ -214,8 +217,19 @@ def xref_stream_defaults(ctx, F, R="R-TABLE"):
                             q = op_place(d[3]["o"])
                             if q is not None and not q["p"]:
                                 work.append(q["l"])
+                            elif re.match(r"^\d+$", bb.oname(d[3]["o"], 3)):
+                                consts.append(int(bb.oname(d[3]["o"], 3)))      # arithmetic on constants (`Variant as u32` is `discr + 0`)
                             else:
                                 others += 1
+                    elif d[2] == "rv" and d[3]["k"] == "discr" and not d[3]["p"]["p"]:
+                        # `Variant as u32` of a fieldless enum written out as a constant: the variant's declared value
+                        vd = bb.single_def(d[3]["p"]["l"])
+                        a_ = F.adts.get(vd[3]["kind"].get("adt")) if vd is not None and vd[2] == "rv" and vd[3]["k"] == "agg" and vd[3]["kind"].get("a") == "adt" else None
+                        dv = [v_.get("discr") for v_ in (a_["variants"] if a_ else []) if v_["name"] == vd[3]["kind"].get("var") and not v_["fields"]]
+                        if dv and dv[0] is not None:
+                            consts.append(dv[0])
+                        else:
+                            others += 1
                     else:
                         others += 1
             found.append((bb, bi, consts, others))
